@@ -41,6 +41,9 @@ def setup_imports():
     if src in sys.path:
         sys.path.remove(src)
     sys.path.insert(0, src)
+    import faulthandler
+    import signal
+    faulthandler.register(signal.SIGUSR2, all_threads=True)     # kill -USR2 <pid> dumps the stack
     import warnings
     warnings.filterwarnings("ignore")
     import torch
